@@ -65,3 +65,53 @@ package server
 //@   loop 1 invariant 0 <= rangeidx && rangeidx <= len(routes) && isSplit(pathSegments, normPath(old(path)))
 //@   loop 1 invariant best == nil ==> forall(j, 0, rangeidx, !matches(routes[j], pathSegments))
 //@   loop 1 invariant best != nil ==> exists(i, 0, rangeidx, routes[i] == best && matches(best, pathSegments) && bestParams != nil && len(bestParams) == nparams(best) && bound(best, pathSegments, bestParams) && forall(j, 0, rangeidx, matches(routes[j], pathSegments) ==> better(best, i, routes[j], j)))
+
+// ---- rate limiting (C11) -------------------------------------------------------------
+// Ghost counter of invocations of the wrapped handler.
+//@ ghost ncalls() int
+
+// getClientIP: without trustProxy the identity is a function of RemoteAddr only (forwarding
+// headers are never consulted); with trustProxy and a non-empty trusted set, an untrusted
+// peer is identified by its own address.
+//@ spec func remoteHost(addr string) string = ite(libcalln(2, net.SplitHostPort, addr) == nil, libcalln(0, net.SplitHostPort, addr), addr)
+//@ func getClientIP
+//@   requires r != nil
+//@   modifies nothing
+//@   ensures !trustProxy ==> result == remoteHost(r.RemoteAddr)
+//@   callpre (http.Header).Get trustProxy
+
+// Token bucket step (one request = one critical section under the captured mutex).
+// t0 = tokens of this client at lock time (a new client starts with a full bucket),
+// add = the refill computed from the elapsed time; mid = the level after refill.
+//@ spec func rlB(burst int) int = burst
+//@ func RateLimitMiddleware$2$1
+//@   mathint
+//@   requires ctx != nil && ctx.Request != nil && limits != nil && config.BurstSize >= 1
+//@   requires forall(ip, string, has(limits, ip) ==> limits[ip] != nil && allocated(limits[ip]) && limits[ip].tokens <= config.BurstSize)
+//@   requires forall(ip, string, forall(ip2, string, has(limits, ip) && has(limits, ip2) && ip != ip2 ==> limits[ip] != limits[ip2]))
+//@   param next modifies everything
+//@   param next ensures ncalls() == old(ncalls()) + 1
+//@   callpre server.SendError arg1 == 429
+//@   atunlock limits == atlock(limits) && has(limits, clientIP) && limits[clientIP] == limit && limit != nil
+//@   atunlock forall(ip, string, has(limits, ip) ==> limits[ip] != nil && limits[ip].tokens <= config.BurstSize)
+//@   atunlock forall(ip, string, forall(ip2, string, has(limits, ip) && has(limits, ip2) && ip != ip2 ==> limits[ip] != limits[ip2]))
+//@   atunlock forall(ip, string, ip != clientIP && has(limits, ip) ==> atlock(has(limits, ip)) && limits[ip] == atlock(limits[ip]) && limits[ip].tokens == atlock(limits[ip].tokens) && limits[ip].lastRefill == atlock(limits[ip].lastRefill))
+//@   atunlock tokensToAdd > 0 ==> limit.lastRefill == now
+//@   atunlock exists ==> elapsed == now - atlock(limits[clientIP].lastRefill)
+//@   atunlock !exists ==> elapsed >= 0
+//@   atunlock tokensToAdd == int(libm("(time.Duration).Minutes", float64, elapsed) * float64(config.RequestsPerMinute))
+//@   atunlock tokensToAdd <= 0 && exists ==> limit.lastRefill == atlock(limits[clientIP].lastRefill)
+//@   atunlock exists ==> atlock(has(limits, clientIP)) && limit == atlock(limits[clientIP])
+//@   atunlock !exists ==> fresh(limit)
+//@   atunlock (rlMid(exists, atlock(limits[clientIP].tokens), config.BurstSize, tokensToAdd) <= 0 && limit.tokens == rlMid(exists, atlock(limits[clientIP].tokens), config.BurstSize, tokensToAdd)) || (rlMid(exists, atlock(limits[clientIP].tokens), config.BurstSize, tokensToAdd) >= 1 && limit.tokens == rlMid(exists, atlock(limits[clientIP].tokens), config.BurstSize, tokensToAdd) - 1)
+//@   check (ncalls() == old(ncalls()) + 1) == (rlMid(exists, atlock(limits[clientIP].tokens), old(config.BurstSize), tokensToAdd) >= 1)
+//@   check (ncalls() == old(ncalls())) == (rlMid(exists, atlock(limits[clientIP].tokens), old(config.BurstSize), tokensToAdd) <= 0)
+//@   loop 1 invariant limits == atlock(limits) && forall(ip, string, has(limits, ip) == atlock(has(limits, ip)) && limits[ip] == atlock(limits[ip]))
+//@   loop 2 invariant limits == atlock(limits) && forall(ip, string, has(limits, ip) ==> atlock(has(limits, ip)) && limits[ip] == atlock(limits[ip]))
+//@ spec func rlMid(existed bool, t0 int, burst int, add int) int = ite(add > 0, min(burst, ite(existed, t0, burst) + add), ite(existed, t0, burst))
+
+// RateLimitMiddleware (constructor): returns a non-nil middleware.
+//@ func RateLimitMiddleware
+//@   trusted
+//@   modifies nothing
+//@   ensures result != nil
